@@ -244,6 +244,84 @@ theorem ply_ascii_prefix (L : Lex) (h : Hdr) (vs fl : List Line) (hx : AsciiOk L
       rw [asciiFaces_cut L f fl hf.2 (j - vs.length) (by simp only [List.length_append] at hj; omega) d (by
         intro x hx'; have := hd x hx'; rwa [List.getElem_append_right hjv'] at this)]
 
+/-! ### ASCII PLY at the byte level (writer-shaped text) -/
+
+/-- BYTE level, ASCII PLY body as the writer prints it (tokens joined by single spaces, one line per
+    record): the complete text — and the text without its final line feed — scans to the lines. -/
+theorem ply_ascii_bytes_complete (init : List (List Tok)) (last : List Tok)
+    (hclean : ∀ ts ∈ init ++ [last], ∀ t ∈ ts, CleanTok t) (hlast : last ≠ []) :
+    scanLines (renderLines (init ++ [last])) = (init ++ [last]).map mkLine ∧
+    scanLines (renderLines init ++ joinSp last) = (init ++ [last]).map mkLine := by
+  constructor
+  · have := scanLines_render (init ++ [last]) hclean [] (by simp) (by simp)
+    simpa using this
+  · have hl : ∀ t ∈ last, CleanTok t := hclean last (by simp)
+    obtain ⟨h10, h13⟩ := joinSp_noSpecial last hl
+    have := scanLines_render init (fun ts hts => hclean ts (List.mem_append_left _ hts)) (joinSp last) h10 h13
+    rw [this]
+    have hne : (joinSp last).isEmpty = false := by
+      have := joinSp_ne_nil last hl hlast
+      cases hj : joinSp last with
+      | nil => exact absurd hj this
+      | cons a b => rfl
+    simp [hne, mkLine, fields_joinSp last hl]
+
+/-- BYTE level, ASCII PLY: the body text cut at any token boundary that loses at least one token — after
+    `j` complete lines and the first `t` tokens of line `j` (`t` < its token count), with or without the
+    separating space — is rejected by the body reader run on what the scanner delivers. -/
+theorem ply_ascii_prefix_bytes (L : Lex) (h : Hdr) (vls fls : List (List Tok))
+    (hclean : ∀ ts ∈ vls ++ fls, ∀ t ∈ ts, CleanTok t)
+    (hx : AsciiOk L h (vls.map mkLine) (fls.map mkLine))
+    (j : Nat) (hj : j < (vls ++ fls).length) (t : Nat) (ht : t < ((vls ++ fls)[j]).length)
+    (sp : Bool) (hsp : sp = true → 0 < t) :
+    readPlyAsciiBody L h (scanLines (renderLines ((vls ++ fls).take j) ++
+      (joinSp (((vls ++ fls)[j]).take t) ++ (if sp then [32] else [])))) = .error .short := by
+  have hcj : ∀ x ∈ (vls ++ fls)[j].take t, CleanTok x :=
+    fun x hx' => hclean (vls ++ fls)[j] (List.getElem_mem hj) x (List.mem_of_mem_take hx')
+  obtain ⟨p10, p13⟩ := joinSp_noSpecial ((vls ++ fls)[j].take t) hcj
+  have hp10 : (10 : UInt8) ∉ joinSp ((vls ++ fls)[j].take t) ++ (if sp then [32] else []) := by
+    cases sp <;> simp [p10]
+  have hp13 : (13 : UInt8) ∉ joinSp ((vls ++ fls)[j].take t) ++ (if sp then [32] else []) := by
+    cases sp <;> simp [p13]
+  rw [scanLines_render ((vls ++ fls).take j) (fun ts hts => hclean ts (List.mem_of_mem_take hts)) _ hp10 hp13]
+  have hmap : ((vls ++ fls).take j).map mkLine = (vls.map mkLine ++ fls.map mkLine).take j := by
+    rw [← List.map_append, List.map_take]
+  have hjm : j < (vls.map mkLine ++ fls.map mkLine).length := by
+    simpa using hj
+  have hget : (vls.map mkLine ++ fls.map mkLine)[j] = mkLine (vls ++ fls)[j] := by
+    simp [← List.map_append]
+  rw [hmap]
+  by_cases ht0 : t = 0
+  · subst ht0
+    have hsp' : sp = false := by cases sp with | false => rfl | true => exact absurd (hsp rfl) (by omega)
+    subst hsp'
+    have := ply_ascii_prefix L h (vls.map mkLine) (fls.map mkLine) hx j hjm none (by simp)
+    simpa [joinSp] using this
+  · have hne : (joinSp ((vls ++ fls)[j].take t) ++ (if sp then [32] else [])).isEmpty = false := by
+      have h1 := joinSp_ne_nil ((vls ++ fls)[j].take t) hcj (by
+        intro hnil
+        have h2 : ((vls ++ fls)[j].take t).length = 0 := by rw [hnil]; rfl
+        rw [List.length_take] at h2
+        omega)
+      cases hjs : joinSp ((vls ++ fls)[j].take t) with
+      | nil => exact absurd hjs h1
+      | cons a b => simp
+    have hf : fields (joinSp ((vls ++ fls)[j].take t) ++ (if sp then [32] else [])) = (vls ++ fls)[j].take t := by
+      cases sp with
+      | false => simpa using fields_joinSp _ hcj
+      | true => simpa using fields_joinSp_space _ hcj
+    simp only [hne, Bool.false_eq_true, if_false]
+    have := ply_ascii_prefix L h (vls.map mkLine) (fls.map mkLine) hx j hjm
+      (some ⟨joinSp ((vls ++ fls)[j].take t) ++ (if sp then [32] else []), fields (joinSp ((vls ++ fls)[j].take t) ++ (if sp then [32] else []))⟩)
+      (by
+        intro x hx'
+        simp only [Option.some.injEq] at hx'
+        subst hx'
+        rw [hget]
+        refine ⟨by simp [Line.blank, hne], t, by omega, by simpa [mkLine] using ht, ?_⟩
+        simp [hf, mkLine])
+    simpa using this
+
 /-! ## PTS (line/token level) -/
 
 /-- a PTS file: the count line, then `n` point lines of `fpp` fields each -/
@@ -322,6 +400,67 @@ theorem pts_prefix (L : Lex) (fpp : Nat) (c : Line) (pl : List Line) (hx : PtsOk
           | cons l2 pl => left; simp [ptsLoop]
         · left; simp only [hok, Bool.not_false, if_true]; exact ⟨_, rfl⟩
 
+
+/-- BYTE level, PTS text as written (count line, then one line per point, single spaces): cut after the
+    count line, `j ≥ 1` complete point lines and the first `t` tokens of point line `j` (fewer than its
+    fields; with or without the separating space; `t = 0`: cut at the line break) → rejected. -/
+theorem pts_prefix_bytes (L : Lex) (fpp : Nat) (ctok : Tok) (pls : List (List Tok))
+    (hc : CleanTok ctok) (hclean : ∀ ts ∈ pls, ∀ t ∈ ts, CleanTok t)
+    (hx : PtsOk L fpp (mkLine [ctok]) (pls.map mkLine))
+    (j : Nat) (hj1 : 1 ≤ j) (hj : j < pls.length) (t : Nat) (ht : t < fpp)
+    (sp : Bool) (hsp : sp = true → 0 < t) :
+    ∃ e, readPts L (renderLines ([ctok] :: pls.take j) ++
+      (joinSp ((pls[j]).take t) ++ (if sp then [32] else []))) = .error e := by
+  have hlen : (pls[j]).length = fpp := by
+    have := (hx.2 (mkLine pls[j]) (by simp; exact ⟨pls[j], List.getElem_mem hj, rfl⟩)).1
+    simpa [mkLine] using this
+  have hcj : ∀ x ∈ (pls[j]).take t, CleanTok x :=
+    fun x hx' => hclean pls[j] (List.getElem_mem hj) x (List.mem_of_mem_take hx')
+  obtain ⟨p10, p13⟩ := joinSp_noSpecial ((pls[j]).take t) hcj
+  have hp10 : (10 : UInt8) ∉ joinSp ((pls[j]).take t) ++ (if sp then [32] else []) := by
+    cases sp <;> simp [p10]
+  have hp13 : (13 : UInt8) ∉ joinSp ((pls[j]).take t) ++ (if sp then [32] else []) := by
+    cases sp <;> simp [p13]
+  have hall : ∀ ts ∈ [ctok] :: pls.take j, ∀ x ∈ ts, CleanTok x := by
+    intro ts hts x hx'
+    rcases List.mem_cons.mp hts with rfl | hts
+    · simp only [List.mem_singleton] at hx'; subst hx'; exact hc
+    · exact hclean ts (List.mem_of_mem_take hts) x hx'
+  unfold readPts
+  rw [scanLines_render _ hall _ hp10 hp13]
+  have hmap : ([ctok] :: pls.take j).map mkLine = mkLine [ctok] :: (pls.map mkLine).take j := by
+    simp [List.map_take]
+  rw [hmap]
+  have key := (pts_prefix L fpp (mkLine [ctok]) (pls.map mkLine) hx).2.2.1 j hj1 (by simpa using hj)
+  by_cases ht0 : t = 0
+  · subst ht0
+    have hsp' : sp = false := by cases sp with | false => rfl | true => exact absurd (hsp rfl) (by omega)
+    subst hsp'
+    have := key none (by simp)
+    simpa [joinSp] using this
+  · have hne : (joinSp ((pls[j]).take t) ++ (if sp then [32] else [])).isEmpty = false := by
+      have h1 := joinSp_ne_nil ((pls[j]).take t) hcj (by
+        intro hnil
+        have h2 : ((pls[j]).take t).length = 0 := by rw [hnil]; rfl
+        rw [List.length_take] at h2
+        omega)
+      cases hjs : joinSp ((pls[j]).take t) with
+      | nil => exact absurd hjs h1
+      | cons a b => simp
+    have hf : fields (joinSp ((pls[j]).take t) ++ (if sp then [32] else [])) = (pls[j]).take t := by
+      cases sp with
+      | false => simpa using fields_joinSp _ hcj
+      | true => simpa using fields_joinSp_space _ hcj
+    simp only [hne, Bool.false_eq_true, if_false]
+    have := key (some ⟨joinSp ((pls[j]).take t) ++ (if sp then [32] else []),
+        fields (joinSp ((pls[j]).take t) ++ (if sp then [32] else []))⟩)
+      (by
+        intro x hx'
+        simp only [Option.some.injEq] at hx'
+        subst hx'
+        refine ⟨t, by omega, ht, ?_⟩
+        simp only [hf, List.length_take]; omega)
+    simpa using this
 
 /-! ## iteration counts: every loop consumes input
 
